@@ -181,7 +181,14 @@ def run_property(prop, tier="quick", configs=None, repo=None, quiet=False, targe
     tree = None
     for cfg in configs:
         d, tree, wall = facts.facts_dir(cfg, repo=repo, target=target)
-        crates = facts.load_dir(d)
+        try:
+            crates = facts.load_dir(d)
+        except FileNotFoundError:
+            # the cached set vanished under us (concurrent prune): extract again, once
+            import shutil
+            shutil.rmtree(d, ignore_errors=True)
+            d, tree, wall = facts.facts_dir(cfg, repo=repo, target=target)
+            crates = facts.load_dir(d)
         prog = Program(crates)
         from .normalize import normalize
         norm = normalize(prog)          # identity on the pinned tree; inlines functions the pinned tree does not have
